@@ -1,4 +1,4 @@
-import Proofs.C10.Wpkh
+import Proofs.C10.Pkh
 import Props.C09
 /-!
 # C10 — what the library builds and signs, its own engine accepts; tampering is rejected
@@ -9,12 +9,13 @@ Property theorems only (DESIGN §3 C10).  C10 is the COMPOSITION of models that 
 stream), and the signature checker handed to the evaluator is `Btc.Spend.checkerOf` (`Model/C10/Engine.lean`: C09 digest
 → C02 DER / ECDSA, C03 BIP340, C12 commitment; tied to btclib's engine verdict by the `c10.verdict` streams).
 
-* T1 (closure), landed for the witness-v0 key-hash templates **p2wpkh** and **p2sh-p2wpkh**, for EVERY flag set that has
-  WITNESS (and P2SH for the wrapped one) -- hence for the default, the standard and the all-flags sets.  The signature
+* T1 (closure), landed for **p2pkh** (every flag set) and the witness-v0 key-hash templates **p2wpkh** and
+  **p2sh-p2wpkh**, for EVERY flag set that has WITNESS (and P2SH for the wrapped one) -- hence for the default, the
+  standard and the all-flags sets.  The signature
   check is a hypothesis here (`checkECDSA … = ok true` over the script code BIP143 prescribes): that a signature made
   by `sign` over the digest the engine recomputes passes it is C02-T1 (`Props.C02.ecdsa_sign_verifies`) plus the DER
   round trip (`Props.C02.der_parse_serialize`); that composition is executed, not yet proved (`c10.verdict`).
-  p2pk / p2pkh / multisig / taproot closures are NOT proved (see the end of this file); they are covered by the
+  p2pk / multisig / taproot closures are NOT proved (see the end of this file); they are covered by the
   executable composition on every finished input of every flow.
 * T2 (tamper ⇒ different message): what the engine hands to signature verification is an injective image of the
   fields the hash type commits to, or an explicit hash collision exists.  Rejection itself rests on unforgeability,
@@ -52,7 +53,35 @@ theorem finalize_p2sh_p2wpkh (vk : Bytes → Bool) (h hr pk sig : Bytes) (hl : h
   simp [finalizedInput, pushedSigs, satisfiedScript, spentScript, hs, hms, hw, hne, singleKey, serializePushes,
     bip147Dummy, isP2ms, bind, Except.bind, pure, Except.pure]
 
+/-- the finalizer on a p2pkh input: scriptSig `push sig ‖ push pk`, no witness -/
+theorem finalize_p2pkh (vk : Bytes → Bool) (h pk sig : Bytes) (hl : h.length = 20) :
+    finalizedInput vk ⟨some (p2pkh h), [], [], [(pk, sig)]⟩ = .ok (pushData sig ++ pushData pk, []) := by
+  have e : (p2pkh h).length = 25 := by simp [p2pkh, Gen.Spend.P2PKH_PREFIX, Gen.Spend.P2PKH_SUFFIX, hl]
+  have hns : isP2sh (p2pkh h) = false := by simp [isP2sh, e]
+  have hms : p2msMAndKeys vk (p2pkh h) = none := by simp [p2msMAndKeys, e]
+  have hnw : isP2wpkh (p2pkh h) = false := by simp [isP2wpkh, e]
+  have hd : (h ++ [136, 172]).drop 20 = [136, 172] := List.drop_left' hl
+  have hk : isP2pkh (p2pkh h) = true := by
+    simp [isP2pkh, p2pkh, Gen.Spend.P2PKH_PREFIX, Gen.Spend.P2PKH_SUFFIX, getB, hl, hd]
+  simp [finalizedInput, pushedSigs, satisfiedScript, spentScript, hns, hms, hnw, hk, singleKey, serializePushes,
+    bind, Except.bind, pure, Except.pure]
+
 /-! ## T1 — closure -/
+
+/-- T1 (p2pkh).  For EVERY flag set: what the finalizer writes for a p2pkh input is accepted by `VerifyScript`,
+    provided the output commits to the hash160 of the key, the key is compressed, the signature (2..75 bytes; a DER
+    signature with its hash-type byte is 9..73) passes the encoding checks of these flags, the signature oracle accepts
+    it for this key over the scriptPubKey as script code, and FindAndDelete does not find the pushed signature inside
+    that script code (`hfd`: it could only if the 20-byte hash WERE the signature). -/
+theorem closure_p2pkh (vk : Bytes → Bool) (env : VerifyEnv) (h sig pk : Bytes) (hl : h.length = 20)
+    (hh : env.hashes.ripemd160 (env.hashes.sha256 pk) = h)
+    (henc : checkSignatureEncoding env.flags sig = .ok ()) (hs2 : 2 ≤ sig.length) (hs : sig.length < 76)
+    (hpk : isCompressedPubKey pk = true)
+    (hfd : findAndDelete (p2pkh h) (pushData sig) = (p2pkh h, 0))
+    (hsig : env.checker.checkECDSA sig pk (p2pkh h) .BASE = .ok true) :
+    ∃ ss wit, finalizedInput vk ⟨some (p2pkh h), [], [], [(pk, sig)]⟩ = .ok (ss, wit) ∧
+      verifyScript env ss (p2pkh h) wit = .ok () :=
+  ⟨_, _, finalize_p2pkh vk h pk sig hl, verify_p2pkh env h sig pk hl hh henc hs2 hs hpk hfd hsig⟩
 
 /-- T1 (p2wpkh).  For every verification environment whose flags include WITNESS -- any of btclib's default set
     `ALL_FLAGS`, Core's standard set, or all twenty-one flags -- what the finalizer writes for a p2wpkh input is
@@ -227,8 +256,7 @@ example : (pushedSigs (fun _ => true)
 /-
 NOT PROVED (full statements kept; the executable composition `Spend.verifyInput`, run against btclib's engine on every
 finished input and on tampered ones, is what covers them):
-* closure_p2pk / closure_p2pkh: as `closure_p2wpkh` with `scriptSig = push sig ‖ push pk`, sigversion BASE, plus the
-  hypothesis that FindAndDelete does not find `push sig` in the script code;
+* closure_p2pk: as `closure_p2pkh` with `scriptSig = push sig`;
 * closure_multisig (bare / p2sh / p2wsh / p2sh-p2wsh): for `1 ≤ k ≤ n ≤ 20`, keys `ks`, a sublist of `k` signers in key
   order: `verifyScript env (finalize …) = ok` -- by induction on `ks` through `multisigLoop`;
 * closure_taproot_key / closure_taproot_pk_leaf: with `checkSchnorr` and `commitment` discharged by C03-T1 / C12-T1;
